@@ -193,6 +193,16 @@ CHECKS = {
         design_ref="6.6",
         note=LEVEL_NOTE_COMMON + " Byte-level fidelity of pickle/joblib/numpy/numba serialisation is runtime behaviour: exercised (in-process and cross-process), not proved.",
     ),
+    "C18": dict(
+        technique="Coq proof over a model of the COO assembly and CSR conversion (row i stores exactly the (index, distance) pairs; duplicates would be summed) + entry-for-entry comparison of transform / fit_transform output with the extracted model applied to the arrays the index returned (spies on index_.query and neighbor_graph, argument check, independent re-query, float64 reference distances)",
+        text=("Theorems C18_row_exact, C18_no_other_rows (coq/props/C18.v). Every run: PyNNDescentTransformer over metrics (with metric_kwds "
+              "and surrogates) x n_neighbors x search_epsilon (including 0.0) x tree_init x low_memory x n_jobs x data with blocks of more "
+              "than n_neighbors+1 identical samples; the recorded query call must carry k=n_neighbors and epsilon=search_epsilon; CSR rows "
+              "must equal the model's rows for the recorded arrays and for an independent query; fit_transform rows must equal the index's "
+              "neighbor graph with n_neighbors+1 stored entries."),
+        design_ref="6.18",
+        note=LEVEL_NOTE_COMMON + " scipy's coo->csr conversion is modelled (summing duplicates) and validated per run, not verified; sklearn parameter plumbing is covered by the argument spy only for k and epsilon.",
+    ),
 }
 
 REASON_PENDING = "check not built yet in this round (design in DESIGN.md section 6; no claim is made until the check exists)"
